@@ -153,6 +153,22 @@ def check_addr(case, ctx):
         judge("C05/publickey[p2wpkh-from-uncompressed-encoding]", "PublicKey.parse(uncompressed).address()", a, exp["p2wpkh"])
         st_, a = call(pku.address, testnet=testnet, addr_type="p2pkh")
         judge("C05/publickey[p2pkh-from-uncompressed-encoding]", "PublicKey.parse(uncompressed).address(p2pkh)", a, exp["p2pkh"])
+    # the hybrid SEC form (06/07 || X || Y) is accepted by the parser: the key it names is the same point, so every requested
+    # form is the standard one (if the parser refuses the form, nothing is judged)
+    ser_u = secp.ser_u(pt)
+    st_, pkh = call(PublicKey.parse, bytes([6 + (ser_u[-1] & 1)]) + ser_u[1:])
+    if st_ == "ok":
+        for what, f, want in (("sec(compressed=False)", lambda: pkh.sec(compressed=False), ser_u), ("sec()", pkh.sec, secp.ser_c(pt)),
+                              ("h160(compressed=False)", lambda: pkh.h160(compressed=False), hashes.hash160(ser_u))):
+            st_, v = call(f)
+            if st_ == "exc" or v != want:
+                raise Violation("C05/publickey/parsed-hybrid", "PublicKey.parse(<hybrid encoding>).%s = %r, expected %s" % (what, v, want.hex()))
+        st_, a = call(pkh.address, compressed=False, testnet=testnet, addr_type="p2pkh")
+        judge("C05/publickey[p2pkh-uncompressed-from-hybrid-encoding]", "PublicKey.parse(<hybrid>).address(compressed=False, p2pkh)", a,
+              exp["p2pkh_uncompressed"])
+        ctx.count("hybrid-encoding-parsed")
+    else:
+        ctx.count("hybrid-encoding-refused (not judged)")
     # the helper-level encoders, flag positional / keyword, in the caller's spelling
     from btc_hd_wallet import helper as Hh
     h160c = hashes.hash160(secp.ser_c(pt))
@@ -212,6 +228,15 @@ def check_scripts(case, ctx):
                             "expected %s" % (name, name, raw, w1.hex()))
         if s1 == s2:
             raise Violation("C05/script/template-aliased[%s]" % name, "scripts for different hashes compare equal")
+        # the template object used as an operand of `+` (in both positions) is still the template afterwards
+        w2 = w1.replace(a1, a2)
+        st_, s3 = call(lambda: s1 + s2)
+        st_b, s4 = call(lambda: s2 + s1)
+        for lab, sx, wx in (("left", s1, w1), ("right", s2, w2)):
+            st_, raw = call(sx.raw_serialize)
+            if st_ == "exc" or raw != wx:
+                raise Violation("C05/script/template-changed-by-add[%s]" % name, "%s(h) used as %s operand of + and then serialised gives "
+                                "%r, expected %s" % (name, lab, raw, wx.hex()))
     for name, f, arg, want in (
             ("p2pkh_script", Sc.p2pkh_script, h160, b"\x76\xa9\x14" + h160 + b"\x88\xac"),
             ("p2sh_script", Sc.p2sh_script, h160, b"\xa9\x14" + h160 + b"\x87"),
